@@ -115,14 +115,22 @@ Fixpoint get_out (l : list orec) (k : kid) (m : option N) : option orec :=
   | [] => None
   | o :: r => if okey_eqb o k m then Some o else get_out r k m
   end.
-(** batch.save: insert or replace, keeping key order *)
-Fixpoint save_out (l : list orec) (x : orec) : list orec :=
+(** batch.save: replace the record stored under the same DB key, or insert in key order *)
+Fixpoint replace_out (l : list orec) (x : orec) : list orec :=
+  match l with
+  | [] => []
+  | o :: r => if okey_eqb o (r_key x) (r_mmr x) then x :: r else o :: replace_out r x
+  end.
+Fixpoint insert_out (l : list orec) (x : orec) : list orec :=
   match l with
   | [] => [x]
-  | o :: r =>
-    if okey_eqb o (r_key x) (r_mmr x) then x :: r
-    else if okey_ltb (r_key x) (r_mmr x) (r_key o) (r_mmr o) then x :: o :: r
-    else o :: save_out r x
+  | o :: r => if okey_ltb (r_key x) (r_mmr x) (r_key o) (r_mmr o) then x :: o :: r
+              else o :: insert_out r x
+  end.
+Definition save_out (l : list orec) (x : orec) : list orec :=
+  match get_out l (r_key x) (r_mmr x) with
+  | Some _ => replace_out l x
+  | None => insert_out l x
   end.
 Definition del_out (l : list orec) (k : kid) (m : option N) : list orec :=
   filter (fun o => negb (okey_eqb o k m)) l.
@@ -228,7 +236,7 @@ Fixpoint lock_inputs (outs : list orec) (ins : list (kid * option N * N)) (id : 
   | [] => Ok (outs, deb)
   | (k, m, _) :: r =>
     match get_out outs k m with
-    | None => Err EGeneric
+    | None => Err EOther      (* batch.get(..)? : the backend's not-found error *)
     | Some o =>
       if lockable (r_status o) then
         lock_inputs (save_out outs (set_tx (set_status o Locked) (Some id))) r id (deb + r_value o)
@@ -275,15 +283,18 @@ Definition retrieve_txs (w : wallet) (id : option N) (slate : option N) (parent 
                    && (match slate with Some s => optN_eqb (t_slate t) (Some s) | None => true end))
          (w_log w).
 
+Definition cancel_cond (parent id : N) (o : orec) : bool :=
+  (r_root o =? parent) && optN_eqb (r_tx o) (Some id) && negb (status_eqb (r_status o) Spent).
+Definition cancel_one (parent id : N) (acc : list orec) (o : orec) : list orec :=
+  if cancel_cond parent id o
+  then match r_status o with
+       | Unconfirmed | Reverted => del_out acc (r_key o) (r_mmr o)
+       | Locked => save_out acc (set_status o Unspent)
+       | _ => acc
+       end
+  else acc.
 Definition cancel_outputs (outs : list orec) (parent id : N) : list orec :=
-  fold_left (fun acc o =>
-    if (r_root o =? parent) && optN_eqb (r_tx o) (Some id) && negb (status_eqb (r_status o) Spent)
-    then match r_status o with
-         | Unconfirmed | Reverted => del_out acc (r_key o) (r_mmr o)
-         | Locked => save_out acc (set_status o Unspent)
-         | _ => acc
-         end
-    else acc) outs outs.
+  fold_left (cancel_one parent id) outs outs.
 
 Definition cancelled_type (ty : ttype) : ttype :=
   match ty with
@@ -566,13 +577,26 @@ Definition bucket_eqb (a b : bucket) : bool :=
 Definition bucket_sum (outs : list orec) (parent h minconf : N) (b : bucket) : N :=
   sumN (map r_value (filter (fun o => (r_root o =? parent) && bucket_eqb (bucket_of o h minconf) b) outs)).
 
-(** updater::retrieve_info (sums in N; the code's u64 [+=] is covered by the no-overflow
-    side condition of the C04 partition theorem) *)
+(** updater::retrieve_info: every figure is a saturating u64 sum (after the C04 [fix:]);
+    a saturating accumulation of non-negative values equals min(exact sum, u64::MAX) *)
+Definition sat (n : N) : N := N.min n U64MAX.
 Definition retrieve_info (w : wallet) (parent minconf : N) : info :=
   let h := lookup (w_confh w) (w_active w) in
-  let s := bucket_sum (w_outs w) parent h minconf in
-  mkInfo (s BSpendable + s BAwaitConf + s BImmature) (s BAwaitFinal) (s BAwaitConf) (s BImmature)
-         (s BLocked) (s BSpendable) (s BReverted).
+  let s := fun b => sat (bucket_sum (w_outs w) parent h minconf b) in
+  mkInfo (sat_add (sat_add (s BSpendable) (s BAwaitConf)) (s BImmature)) (s BAwaitFinal)
+         (s BAwaitConf) (s BImmature) (s BLocked) (s BSpendable) (s BReverted).
+
+(* ------------------------------------------------------------------ TTL expiry (update_wallet_state step 5) *)
+(** one outstanding entry of the refresh snapshot: cancelled iff it carries a cutoff that the
+    observed tip has reached *)
+Definition expire_one (tip : N) (w : wallet) (t : trec) : wallet :=
+  match t_ttl t with
+  | Some e => if e <=? tip then fst (cancel w (Some (t_id t)) None) else w
+  | None => w
+  end.
+Definition expire (w : wallet) (tip : N) : wallet :=
+  fold_left (expire_one tip)
+            (filter (fun t => (t_parent t =? w_active w) && outstanding t) (w_log w)) w.
 
 (* ------------------------------------------------------------------ operations *)
 Inductive op :=
@@ -583,7 +607,8 @@ Inductive op :=
 | OpRefresh (parent : N) (update_all : bool) (tip : N) (p : presence) (kernel_missing : list N)
 | OpInitSend (slate : N) (src : option N) (p : params) (late : bool)
 | OpFinalize (slate ttl tip : N) (state_ok crypto_ok : bool)
-| OpSetActive (a : N).
+| OpSetActive (a : N)
+| OpExpire (tip : N).
 
 (** result code of a step: 0 Ok, 1 :: class for Err, 2 Panic *)
 Definition rcode {A} (r : result A) : list Z :=
@@ -599,6 +624,7 @@ Definition step (w : wallet) (o : op) : wallet * list Z :=
   | OpInitSend s src p l => let '(w', r) := init_send w s src p l in (w', rcode r)
   | OpFinalize s t tip so c => let '(w', r) := finalize w s t tip so c in (w', rcode r)
   | OpSetActive a => (with_active w a, [0%Z])
+  | OpExpire tip => (expire w tip, [0%Z])
   end.
 
 Definition run (w : wallet) (ops : list op) : wallet := fold_left (fun w o => fst (step w o)) ops w.
@@ -623,10 +649,18 @@ Definition enc_tx (t : trec) : list Z :=
 Definition enc_pairs (m : list (N * N)) : list (list Z) :=
   map (fun kv => [Z.of_N (fst kv); Z.of_N (snd kv)]) (filter (fun kv => negb (snd kv =? 0)) m).
 
-(** projection compared with the harness snapshot: outputs, log, child counters, contexts *)
+Definition enc_info (w : wallet) (minconf : N) : list Z :=
+  let i := retrieve_info w (w_active w) minconf in
+  [Z.of_N minconf; Z.of_N (i_spendable i); Z.of_N (i_immature i); Z.of_N (i_awaiting_confirmation i);
+   Z.of_N (i_awaiting_finalization i); Z.of_N (i_locked i); Z.of_N (i_reverted i); Z.of_N (i_total i);
+   Z.of_N (lookup (w_confh w) (w_active w))].
+
+(** projection compared with the harness snapshot: outputs, log, child counters, contexts,
+    and the balance figures of the active account for 0, 1 and 3 minimum confirmations *)
 Definition project (w : wallet) : list (list (list Z)) :=
   [map enc_out (w_outs w); map enc_tx (w_log w); enc_pairs (w_child w);
-   [map (fun c => Z.of_N (c_slate c)) (w_ctxs w)]].
+   [map (fun c => Z.of_N (c_slate c)) (w_ctxs w)];
+   [enc_info w 0; enc_info w 1; enc_info w 3]].
 
 (** run a history and emit, per step, the result code and the projection *)
 Fixpoint trace (w : wallet) (ops : list op) : list (list (list (list Z))) :=
